@@ -1,6 +1,7 @@
 package sim
 
 import (
+	"encoding/json"
 	"fmt"
 	"strings"
 	"time"
@@ -20,7 +21,7 @@ func hbTimeout(h time.Duration) time.Duration {
 func (d *Driver) stallIn(inst int, a, b time.Duration) time.Duration {
 	var s time.Duration
 	for _, st := range d.h.Stalls {
-		if st.Inst == inst && st.T >= a && st.T <= b {
+		if st.Inst == inst && st.T <= b && st.T+st.D >= a { // every stall that overlaps the window
 			s += st.D
 		}
 	}
@@ -231,12 +232,12 @@ func (d *Driver) judgeC03numeric(prop string) {
 			if t.Fall != nil && op.SInvoke > t.SEnd {
 				break
 			}
-			if op.Applied && op.OK && op.Err == nil && op.TRet-op.TInvoke <= p.H {
-				lastOK = op
+			if op.Applied && op.OK && op.Err == nil && op.TRet >= 0 && op.TRet-op.TInvoke < T {
+				lastOK = op // the last refresh the library saw succeed
 			}
 		}
-		if lastOK == nil {
-			continue
+		if lastOK == nil || lastOK.TRet-lastOK.TInvoke > p.H {
+			continue // the numeric form presumes the successful refresh completed within one interval
 		}
 		s0 := lastOK.TInvoke
 		dl := s0 + 3*p.H + 3*T
@@ -487,7 +488,43 @@ func (d *Driver) judgeC13() {
 			d.h.violate("C13", "promoted-without-own-successful-write/rise-by:"+c.Stack, fmt.Sprintf("i%d.%d claimed leadership at %v (token %s) without a successful create/takeover of its own carrying that token; %s", c.Inst, c.Gen, c.T, short(c.Token), what), c.T, c.Step)
 		}
 	}
+	// a record that is not a leadership payload (not a JSON object, or id/token/priority of the
+	// wrong JSON type) names nobody and stores no priority: replacing it is not a preemption
+	for _, op := range d.h.Ops {
+		if op.Inst < 0 || !op.Applied || !op.OK || op.Kind != "update" || op.PrevLive == nil {
+			continue
+		}
+		prev := op.PrevLive
+		if prev.Writer == op.Inst && prev.Gen == op.Gen {
+			continue
+		}
+		if why := malformedPayload(prev.Val); why != "" {
+			d.h.violate("C13", "replaced-malformed-record/"+why+"/"+callerSig(op.Caller), fmt.Sprintf("i%d replaced the live record seq=%d %.80q (%s), which it did not write, and may promote itself over it", op.Inst, prev.Seq, prev.Val, why), op.TApply, op.SApply)
+		}
+	}
 	d.judgeC03as("C13")
+}
+
+// malformedPayload reports why a record value is clearly not a leadership payload ("" if it
+// could be one; missing fields are NOT reported: priority is documented as omitted when 0, and
+// the statement does not say what a record without an id is).
+func malformedPayload(b []byte) string {
+	var m map[string]json.RawMessage
+	if err := json.Unmarshal(b, &m); err != nil {
+		return "not-a-json-object"
+	}
+	for _, k := range []string{"id", "token"} {
+		if raw, ok := m[k]; ok && string(raw) != "null" && (len(raw) == 0 || raw[0] != '"') {
+			return "wrong-type-" + k
+		}
+	}
+	if raw, ok := m["priority"]; ok {
+		var n int64
+		if string(raw) != "null" && json.Unmarshal(raw, &n) != nil {
+			return "wrong-type-priority"
+		}
+	}
+	return ""
 }
 
 // ---------- C04: fencing-token validation sound and fail-safe ----------
@@ -541,6 +578,25 @@ func (d *Driver) judgeC04() {
 				d.h.violate("C04", "true-without-matching-record/"+a.Kind, fmt.Sprintf("i%d %s returned true over [%v,%v] (term token %s) but the record never held its id and token in that interval; record versions: %v", a.Inst, a.Kind, a.TInv, a.TRet, short(a.TokenAtInv), seen), a.TRet, a.SRet)
 			}
 			continue
+		}
+		if a.Kind == AValidateOD && a.LeaderAtInv {
+			// false => the instance no longer reports leadership once the call has returned. Judged
+			// against every term that was already running when the read's answer reached the caller
+			// (a term that begins after the verdict was computed races with the return itself).
+			var g *Op
+			for _, op := range d.h.Ops {
+				if op.Inst == a.Inst && op.Gen == a.Gen && op.Kind == "get" && strings.HasPrefix(op.Caller, "validateToken") && op.SInvoke >= a.SInv && op.TRet >= 0 && op.SRet <= a.SRet {
+					g = op
+				}
+			}
+			if g != nil {
+				for _, x := range terms {
+					if x.Inst == a.Inst && x.Gen == a.Gen && x.SStart < g.SRet && (x.Fall == nil || x.End > a.TRet+d.stallIn(a.Inst, g.TRet, a.TRet+time.Second)) {
+						d.h.violate("C04", "validate-or-demote-false-but-leader-at-return", fmt.Sprintf("i%d ValidateTokenOrDemote returned false at %v but the instance still reports leadership (term that began at %v, before the read was answered at %v)", a.Inst, a.TRet, x.Start, g.TRet), a.TRet, a.SRet)
+						break
+					}
+				}
+			}
 		}
 		if a.Kind == AValidateOD {
 			// false => no longer leader once returned, for the rest of that term; OnDemote ran if it led
